@@ -127,7 +127,7 @@ func init() {
 						}
 					}
 				})
-				return &result.Hash
+				return result.freeze()
 			})
 		},
 
@@ -1446,6 +1446,19 @@ func (hv *MutableHashValue) PutAll(o px.OrderedMap) {
 	hv.reducedType = nil
 	hv.detailedType = nil
 	hv.index = nil
+}
+
+// freeze returns an immutable Hash with the entries of this hash where every nested MutableHashValue
+// has been frozen too. The receiver must not be changed afterwards.
+func (hv *MutableHashValue) freeze() *Hash {
+	entries := make([]*HashEntry, len(hv.entries))
+	for i, e := range hv.entries {
+		if mv, ok := e.value.(*MutableHashValue); ok {
+			e = WrapHashEntry(e.key, mv.freeze())
+		}
+		entries[i] = e
+	}
+	return WrapHash(entries)
 }
 
 // Put adds or replaces the given key/value association in this hash
